@@ -844,6 +844,11 @@ class Instance(object):
         lim = mem.max if mem.max is not None else 65536
         if new > lim or new > 65536:
             return M32
+        hl = getattr(self, 'host_limit_pages', None)
+        if hl is not None and not mem.shared and new >= 2 * hl:
+            # the host process runs under an address-space limit of hl pages: an allocation of twice that cannot succeed - the grow
+            # fails and changes nothing (scripts using the limit keep successful grows far below it)
+            return M32
         if new > MAY_FAIL_PAGES:
             if getattr(self, 'may_fail_alt', False):
                 self.alt_old = old          # both outcomes are acceptable; the model goes on with "failed"
